@@ -244,6 +244,19 @@ def _scan(ctx, u, f, name, algo, role):
         for x in walk(f):
             if x.get('kind') == 'CallExpr' and callee(x) and callee(x)[0] == 'fn' and \
                     _fkey(hf) in (ctx.G.resolve_decl(callee(x)[1]) if callee(x)[1].get('_qn') else ()):
+                if re.search(r'civil_transition$', (qtype(hf) or '').split('(')[0].replace('const ', '').strip()):
+                    # the value built is what is stored through the civil_transition out-parameter
+                    pa = x.get('_p')
+                    while pa is not None and pa.get('kind') in ('ImplicitCastExpr', 'MaterializeTemporaryExpr', 'ExprWithCleanups',
+                                                                'CXXBindTemporaryExpr', 'CXXConstructExpr'):
+                        pa = pa.get('_p')
+                    stored = pa is not None and pa.get('kind') == 'CXXOperatorCallExpr' and callee(pa) and \
+                        callee(pa)[1].get('name') == 'operator=' and peel(call_args(pa)[0]).get('kind') == 'UnaryOperator' and \
+                        peel(call_args(pa)[0]).get('opcode') == '*' and \
+                        (peel(kids(peel(call_args(pa)[0]))[0]).get('referencedDecl') or {}).get('kind') == 'ParmVarDecl' and \
+                        'civil_transition' in (qtype(call_args(pa)[0]) or '')
+                    if not stored:
+                        continue
                 t_ = single(sv.value_ast(call_args(x)[hp]) or ())
                 n_helper += 1
                 if t_ is not None and t_[0] == 'ptr':
@@ -398,6 +411,14 @@ def _report_helper(ctx, hf):
             l = peel(args[0])
             if l.get('kind') == 'MemberExpr' and l.get('name') in ('from', 'to') and 'civil_transition' in (qtype(kids(l)[0]) + dtype(kids(l)[0])):
                 assigns.setdefault(l.get('name'), []).append(args[1])
+    if not assigns:
+        # a helper that returns the civil_transition {from, to} it builds (members in declaration order)
+        rets = [x for x in walk(hf) if x.get('kind') == 'ReturnStmt' and kids(x)]
+        ils = [y for r in rets for y in walk(r) if y.get('kind') == 'InitListExpr' and
+               re.search(r'civil_transition$', (dtype(y) or qtype(y) or '').replace('const ', '').strip())]
+        if len(rets) == 1 and len(ils) == 1 and len(kids(ils[0])) == 2 and \
+                re.search(r'civil_transition$', (qtype(hf) or '').split('(')[0].replace('const ', '').strip()):
+            assigns = {'from': [kids(ils[0])[0]], 'to': [kids(ils[0])[1]]}
     if len(assigns.get('from', [])) != 1 or len(assigns.get('to', [])) != 1:
         return None
     sv = SymVal(ctx, hf, helpers=False)
